@@ -590,6 +590,11 @@ class Simulation:
             if key not in ("debug", "trace", "tracer"):
                 new_dict[key] = value
 
+        # The copy spills to its own directory, created on demand, and marks its
+        # own cache entries for deletion.
+        new._data_storage_dir = None
+        new.invalidated_caches = set()
+
         new.persons = self.persons.clone(new)
         setattr(new, new.persons.entity.key, new.persons)
         new.populations = {new.persons.entity.key: new.persons}
